@@ -432,6 +432,44 @@ Proof.
   apply (c14_stride_w_fold bits sg Hb (i :: idx) (e :: E') V St HS (1 + c14_sum_span (e :: E') St)); auto. lia.
 Qed.
 
+(* ------------------------------------------------------------------ coverage audit: one object in both roles, histories, index types *)
+Lemma c14_swap_involutive : forall (x y : c14_view),
+  c14_view_swap (fst (c14_view_swap x y)) (snd (c14_view_swap x y)) = (x, y) /\
+  c14_view_swap x x = (x, x) /\ c14_view_assign x x = (x, x).
+Proof. intros. repeat split. Qed.
+
+Lemma c14_array_swap_involutive : forall (T : Type) (x y : c14_array T),
+  c14_array_swap (fst (c14_array_swap x y)) (snd (c14_array_swap x y)) = (x, y) /\
+  c14_array_swap x x = (x, x) /\ c14_array_assign x x = (x, x).
+Proof. intros. repeat split. Qed.
+
+(* indices (or strides) handed over in ANOTHER integral type and converted with index_type(...) designate the same
+   element whenever they are representable in index_type *)
+Lemma c14_wrap_list_fits : forall bits sg l, 0 < bits -> Forall (fun v => c14_fits bits sg v = true) l ->
+  map (c14_wrap bits sg) l = l.
+Proof.
+  intros bits sg l Hb F. induction F as [|v l Hv F IH]; simpl; [reflexivity|].
+  rewrite IH, (c14_wrap_fits bits sg v); auto.
+Qed.
+
+Lemma c14_valid_fits : forall bits sg idx E, 0 < bits -> c14_valid idx E -> Forall (fun e => c14_fits bits sg e = true) E ->
+  Forall (fun v => c14_fits bits sg v = true) idx.
+Proof.
+  intros bits sg idx E Hb V. induction V as [|i e idx E Hi V IH]; intros F; constructor; inversion F; subst; auto.
+  apply (c14_fits_below bits sg e); auto; lia.
+Qed.
+
+Lemma c14_index_conversion : forall bits sg m idx, 0 < bits -> c14_valid idx (c14_ext m) ->
+  Forall (fun e => c14_fits bits sg e = true) (c14_ext m) ->
+  c14_map m (map (c14_wrap bits sg) idx) = c14_map m idx.
+Proof.
+  intros bits sg m idx Hb V F. rewrite c14_wrap_list_fits; auto. eapply c14_valid_fits; eauto.
+Qed.
+
+Lemma c14_stride_conversion : forall bits sg E St, 0 < bits -> Forall (fun s => c14_fits bits sg s = true) St ->
+  C14_Mapping C14_Stride E (map (c14_wrap bits sg) St) = C14_Mapping C14_Stride E St.
+Proof. intros. rewrite c14_wrap_list_fits; auto. Qed.
+
 (* ------------------------------------------------------------------ constant answers re-read from the headers are the ones the theorems justify *)
 Lemma c14_flags_justified :
   (forall l, c14_is_unique l = true) /\ (forall l, c14_is_strided l = true) /\ (forall l, c14_is_always_unique l = true) /\
